@@ -204,7 +204,7 @@ def unit_forced(u, rec):
                         got = np.asarray(fsw(sj, fj))
                         scale = max(1.0, float(np.max(np.abs(want))))
                         rec.count(states=m, transitions=m, traces=1)
-                        rec.close(np.max(np.abs(got - want)), 1e4 * EPS * scale * m, f"C12/forced_substepped/{e.name}/{label}",
+                        rec.close(np.max(np.abs(got - want)), 1e5 * EPS * scale * m, f"C12/forced_substepped/{e.name}/{label}",
                                   "ForcedStepper around sub-stepping wrappers differs from the unforced evolution over T of u + T*f", D=D, order=order, state=si, forcing=fi)
     rec.sample({"forced_base": e.name, "states": 4, "forcings": 3, "entries": ["__call__", "step", "step_fourier"]})
 
